@@ -587,6 +587,61 @@ def coupled_cases(draw):
             "nwt": draw(st.sampled_from([None, "surface", "irrigation"]))}
 
 
+def oracle_big(case, rec):
+    """Cross degrees of 182..260: k(k-1)/2 leaves int16 there."""
+    from pyunicorn.core import InteractingNetworks
+    n1, n2 = case["n1"], case["n2"]
+    n = n1 + n2
+    A = np.zeros((n, n), dtype=int)
+    g1 = list(range(n1))
+    g2 = list(range(n1, n))
+    for a in g1:
+        k = case["deg"][a % len(case["deg"])]
+        for u in g2[:min(k, n2)]:
+            A[a, u] = A[u, a] = 1
+    for x, y in case["inner"]:
+        x, y = n1 + x % n2, n1 + y % n2
+        if x != y:
+            A[x, y] = A[y, x] = 1
+    ok, net = rec.call("construct", lambda: InteractingNetworks(
+        adjacency=A, silence_level=3))
+    if not ok:
+        return
+    rec.nontrivial(True)
+    cl, tr = cross_clustering_ref(A, g1, g2)
+    rec.label("max_cross_degree=%d" % int(A[np.ix_(g1, g2)].sum(axis=1).max()))
+    _cmp(rec, net, "cross_degree", A[np.ix_(g1, g2)].sum(axis=1), g1, g2,
+         clause="big_cross_degree")
+    _cmp(rec, net, "cross_local_clustering", cl, g1, g2,
+         clause="big_cross_local_clustering")
+    _cmp(rec, net, "cross_local_clustering_sparse", cl, g1, g2,
+         clause="big_cross_local_clustering_sparse")
+    _cmp(rec, net, "cross_global_clustering", cl.mean(), g1, g2,
+         clause="big_cross_global_clustering")
+    _cmp(rec, net, "cross_transitivity", tr, g1, g2,
+         clause="big_cross_transitivity")
+    _cmp(rec, net, "cross_transitivity_sparse", tr, g1, g2,
+         clause="big_cross_transitivity_sparse")
+    _cmp(rec, net, "internal_degree", A[np.ix_(g2, g2)].sum(axis=1), g2,
+         clause="big_internal_degree")
+    _cmp(rec, net, "internal_global_clustering",
+         R.local_clustering(A)[g2].mean(), g2,
+         clause="big_internal_global_clustering")
+
+
+@st.composite
+def big_cases(draw):
+    n2 = draw(st.integers(185, 270))
+    return {"n1": draw(st.integers(1, 3)), "n2": n2,
+            "deg": draw(st.lists(st.integers(150, 270), min_size=1,
+                                 max_size=3)) + [n2],
+            "inner": draw(st.lists(st.tuples(st.integers(0, 300),
+                                             st.integers(0, 300)).map(list),
+                                   min_size=50, max_size=600))}
+
+
+SUBCHECKS.append(SubCheck("big_cross_degree", oracle_big, gen=big_cases,
+                          quick=(4, 3), thorough=(8, 25)))
 SUBCHECKS.append(SubCheck("coupled_climate_network", oracle_coupled,
                           gen=coupled_cases, quick=(2, 60),
                           thorough=(8, 800)))
